@@ -41,6 +41,24 @@ def collect_then_sort(prog, key, fn, rng):
     if loop is None:
         return False, 'no loop found for the iterator'
     h, l = loop
+    # the clearing idiom: `for k := range m { delete(m, k) }` leaves m empty whatever the order
+    calls_ = [x for b in l['body'] for x in fn['blocks'][b]['instrs'] if x['op'] in ('Call', 'Defer', 'Go')]
+    if len(calls_) == 1 and (calls_[0].get('callee') or {}).get('k') == 'builtin' and calls_[0]['callee'].get('name') == 'delete':
+        ops_ = {x['op'] for b in l['body'] for x in fn['blocks'][b]['instrs']}
+        keys_ = {x['name'] for b in l['body'] for x in fn['blocks'][b]['instrs'] if x['op'] == 'Extract' and x.get('index') == 1}
+        a_ = calls_[0]['args']
+        defs_ = {x.get('name'): x for bb in fn['blocks'] for x in bb['instrs'] if x.get('name')}
+
+        def origin(r):
+            # a register, or the field it was loaded from (no store happens in the body: the field keeps its value)
+            d = defs_.get(r.get('name'))
+            if d is not None and d['op'] == 'UnOp' and d.get('tok') == '*':
+                d2 = defs_.get(d['x'].get('name'))
+                if d2 is not None and d2['op'] == 'FieldAddr':
+                    return ('field', d2['x'].get('name'), d2.get('field'))
+            return ('reg', r.get('name'))
+        if ops_ <= {'Next', 'Extract', 'If', 'Jump', 'Call', 'DebugRef', 'FieldAddr', 'UnOp'} and origin(a_[0]) == origin(rng['x']) and a_[1].get('name') in keys_:
+            return True, 'every key is deleted from the very map being ranged over: the map ends empty whatever the order'
     appends = []
     for b in l['body']:
         for x in fn['blocks'][b]['instrs']:
@@ -131,8 +149,11 @@ def generate(prog, contracts, P, tier, results, funcs_report):
         targets.append((key0, prog.resolve(key0), True))
     for pk in P.get('ordered_packages', []):
         for key in sorted(prog.funcs):
-            if key.startswith(pk + '.') and prog.funcs[key]['blocks'] and not re.match(r'^%s\.init(#\d+)?$' % re.escape(pk), key):
+            bare = re.sub(r'^\(\*?', '', key)          # methods: (*pkg.T).M / (pkg.T).M
+            if bare.startswith(pk + '.') and prog.funcs[key]['blocks'] and not re.match(r'^%s\.init(#\d+)?$' % re.escape(pk), key):
                 shown = rev.get(key, key)
+                if shown in P.get('map_order_by_contract', {}) or key in P.get('map_order_by_contract', {}):
+                    continue      # decided by a contract with a demonic iteration order, verified by this same check
                 if all(t[1] != key for t in targets):
                     targets.append((shown, key, False))
     for (key0, key, listed) in targets:
